@@ -816,7 +816,16 @@ func (r *run) finish(pool *valpool.Pool) {
 		r.writeIO(log)
 	}
 	forks := r.forks()
-	// Shut the process down (files are in memory; nothing to clean).
+	// Shut the process down: Close releases the rotation goroutine and the buffers (its I/O comes
+	// after the snapshot taken above and is not part of the explored history), then stop the world.
+	if r.w != nil && !r.job.Real {
+		func() {
+			defer func() { recover() }()
+			r.rec.AllowBackground(true)
+			r.w.Close()
+		}()
+		r.w = nil
+	}
 	r.rec.Freeze()
 	for _, f := range forks {
 		r.runFork(f, log, pool)
